@@ -78,6 +78,7 @@ type run struct {
 	symbolicPath bool
 	events       []string
 
+	twins    map[*Term]*Term
 	stack    []*ssa.Function
 	names    map[*value]string
 	watch    map[*value]string
@@ -568,6 +569,7 @@ func (e *engine) runPath(sol *Solver, entry *ssa.Function, args []value, prefix 
 		maxLen:    e.maxLen,
 		onceDone:  map[*value]bool{},
 		names:     map[*value]string{},
+		twins:     map[*Term]*Term{},
 		watch:     map[*value]string{},
 		watchMap:  map[*smap]string{},
 		syncIDs:   map[*value]int{},
